@@ -268,6 +268,13 @@ def gen(tier, seed):
             yield c
 
 
+def main_path(spec):
+    """name under which the top-level text is given to cfg_parse(): short, or a relative path of more than 300 bytes"""
+    if spec.get('entry') == 'file' and spec.get('seed', 0) % 4 == 1:
+        return '/'.join(c * 110 for c in 'ABC') + '/main.conf'
+    return 'main.conf'
+
+
 def pretext_of(spec, decls):
     """the earlier accepted text: comments and blank lines, and every plain top-level section opened once with an empty body"""
     t = spec.get('pretext', '')
@@ -288,7 +295,13 @@ def script(spec):
     for name, text in files.items():
         if name != 'main':
             L.append('mkfile %s %s' % (hx(d + '/' + name), hx(text)))
-    L.append('mkfile %s %s' % (hx(d + '/main.conf'), hx(files['main'])))
+    mp = main_path(spec)
+    if mp != 'main.conf':
+        cur = d
+        for part in mp.split('/')[:-1]:
+            cur += '/' + part
+            L.append('mkdir %s' % hx(cur))
+    L.append('mkfile %s %s' % (hx(d + '/' + mp), hx(files['main'])))
     L.append('mkfile %s %s' % (hx(d + '/pre.conf'), hx(pretext_of(spec, decls))))
     L.append('chdir %s' % hx(d))
     L += lines
@@ -302,7 +315,7 @@ def script(spec):
     if spec.get('failat'):
         L.append('failat %d' % spec['failat'])
     entry = spec.get('entry', 'buf')
-    L.append('parse_file 0 %s' % hx('main.conf') if entry == 'file' else 'parse_%s 0 %s' % (entry, hx(files['main'])))
+    L.append('parse_file 0 %s' % hx(mp) if entry == 'file' else 'parse_%s 0 %s' % (entry, hx(files['main'])))
     return '\n'.join(L)
 
 
@@ -370,7 +383,7 @@ def judge(spec, events, death):
         efile, eline = eof          # an unterminated string is noticed at the end of the input
     # the name of the top-level source: the buffer name, the name given to cfg_parse(); a bare stream has no name of its own (not judged)
     if efile == 'main':
-        efile = {'buf': '[buf]', 'file': 'main.conf', 'fp': None}[entry]
+        efile = {'buf': '[buf]', 'file': main_path(spec), 'fp': None}[entry]
     # non-trivial: something newline-bearing other than blank lines precedes the error point
     v.nontrivial = eline > 1 and (len(files) > 1 or any(c in files['main'] for c in '#/\\'))
     if r[0]['rc'] != 1:
@@ -380,7 +393,7 @@ def judge(spec, events, death):
         return v
     for f, l, m in diags:
         if efile is not None and f != efile:
-            v.bad('wrong-file:%s:%s' % ('in-include' if efile not in ('[buf]', 'main.conf') else 'in-main', 'none' if f is None else 'other'),
+            v.bad('wrong-file:%s:%s' % ('in-include' if efile not in ('[buf]', 'main.conf', main_path(spec)) else 'in-main', 'none' if f is None else 'other'),
                   'error (%s) at token %d ends in %s line %d, diagnostic %r names file %r line %s; main text %r' % (it.why, pos, efile, eline, m, f, l, files['main'][:300]))
             break
         if l != eline:
